@@ -410,12 +410,11 @@ pub fn exec(_label: &str, input: &str, out: &mut CaseOut) {
             let recs = Recs { recs };
             // a filter that is the single term `^sym`: the graph's answer (C13's reflection rule)
             let single_isa: Option<String> = text.strip_prefix('^').filter(|r| !r.contains(' ')).map(|r| r.to_string());
-            let parts_defined = o.is.keys().filter(|c| c.contains('-')).all(|c| c.split('-').all(|p| o.defined(p)));
             for rec in &recs.recs {
                 let cx = EvalContext::make(rec, cyc_ns, &recs);
                 let got = filter.eval(&cx); // must return: the watchdog reports a hang with this input
                 out.stat(if got { "evns:match" } else { "evns:no-match" });
-                if let (Some(b), true) = (&single_isa, parts_defined) {
+                if let Some(b) = &single_isa {
                     let spec: crate::c13::RecSpec = rec.iter().map(|(k, v)| (k.clone(), v.is_marker())).collect();
                     let want = o.defined(b) && o.reflect(&spec).contains(b);
                     if got != want {
